@@ -120,19 +120,19 @@ Local Arguments for_up : simpl never.
 Local Arguments for_down : simpl never.
 
 (* ------------------------------------------------------------------ primitives *)
-Lemma item_at_ok (s : arr) i v : i < cnt s -> get (cells s) i = Live v -> item_at V s i = Ok v.
-Proof. intros Hi Hg. unfold item_at, live_at. destruct (Nat.ltb_spec i (cnt s)); [|lia]. rewrite Hg; auto. Qed.
+Lemma item_at_ok (s : arr) i v : i < cnt s -> get (cells s) i = Live v -> item_at V s i = Ok (Some v).
+Proof. intros Hi Hg. unfold item_at, obj_at. destruct (Nat.ltb_spec i (cnt s)); [|lia]. rewrite Hg; auto. Qed.
 
-Lemma assign_val_ok (s : arr) v dst :
-  dst < cnt s -> get (cells s) dst <> Raw -> assign_val V s v dst = Ok (upd V s dst (Live v)).
+Lemma assign_val_ok (s : arr) o dst :
+  dst < cnt s -> get (cells s) dst <> Raw -> assign_val V s o dst = Ok (upd V s dst (mcell o)).
 Proof.
   intros Hi Hg. unfold assign_val. destruct (Nat.ltb_spec dst (cnt s)); [|lia].
   destruct (get (cells s) dst); auto; congruence.
 Qed.
 
-Lemma add_back_ctor_ok (s : arr) v :
+Lemma add_back_ctor_ok (s : arr) o :
   cnt s < cap s -> get (cells s) (cnt s) = Raw ->
-  add_back_ctor V s v = Ok (mkArr (set (cells s) (cnt s) (Live v)) (S (cnt s))).
+  add_back_ctor V s o = Ok (mkArr (set (cells s) (cnt s) (mcell o)) (S (cnt s))).
 Proof. intros Hc Hg. unfold add_back_ctor. destruct (Nat.ltb_spec (cnt s) (cap s)); [|lia]. rewrite Hg; auto. Qed.
 
 Lemma add_back_move_item_ok (s : arr) i v :
@@ -446,9 +446,9 @@ Lemma read_arg_prefix (s s0 : arr) index (l : list V) d x :
   arg_ok index x -> index <= length l ->
   firstn index (cells s) = firstn index (cells s0) ->
   (forall j, j < length l -> get (cells s0) j = Live (nth j l d)) ->
-  read_arg V s x = Ok (arg_val l d x).
+  read_arg V s x = Ok (Some (arg_val l d x)).
 Proof.
-  intros Hx Hi Hp Hl. destruct x as [v|p]; simpl; auto. simpl in Hx. unfold live_at.
+  intros Hx Hi Hp Hl. destruct x as [v|p]; simpl; auto. simpl in Hx. unfold obj_at.
   rewrite <- (get_firstn (cells s) index p) by auto. rewrite Hp. rewrite get_firstn by auto.
   rewrite Hl by lia. reflexivity.
 Qed.
@@ -466,14 +466,14 @@ Proof.
   intros Hi Hl Hok Ha Hp. split.
   - intros m k dst s Hm Hk Hd1 Hd2 Hd3 HQ.
     rewrite Ha by auto. rewrite (read_arg_prefix s s0 index l d) by auto. simpl.
-    rewrite assign_val_ok by auto. unfold upd.
+    rewrite assign_val_ok by auto. unfold upd. simpl mcell.
     assert (dst < length (cells s)) by (apply get_not_raw_lt; auto).
     eexists; split; [reflexivity|]. rewrite length_set. repeat split; auto.
     + intros j Hj. apply get_set; auto.
     + rewrite firstn_set_ge by auto. auto.
   - intros m k s Hm Hk Hc1 Hc2 Hr HQ.
     rewrite Hp by auto. rewrite (read_arg_prefix s s0 index l d) by auto. simpl.
-    rewrite add_back_ctor_ok by auto.
+    rewrite add_back_ctor_ok by auto. simpl mcell.
     eexists; split; [reflexivity|]. rewrite length_set. repeat split; auto.
     + intros j Hj. apply get_set; auto.
     + rewrite firstn_set_ge by auto. auto.
